@@ -272,8 +272,12 @@ theorem fltRT_of_clean : ∀ e : Expr, cleanFilter e = true → fltRT e = true
       simp only [fltRT, Bool.and_eq_true]
       cases ba <;> cases bc <;> simp only [cleanBounds, Bool.false_eq_true, Bool.and_eq_true] at hcl
       · exact ⟨fltBoundRT_of_bnd hba (by intro f hf; cases hf), fltBoundRT_of_bnd hbc (by intro f hf; cases hf)⟩
+      · exact ⟨fltBoundRT_of_bnd hba (by intro f hf; cases hf),
+          fltBoundRT_of_bnd hbc (by intro f hf; cases hf; exact twoDec_finite _ hcl.1)⟩
       · exact ⟨fltBoundRT_of_bnd hba (by intro f hf; cases hf), fltBoundRT_of_bnd hbc (by intro f hf; cases hf)⟩
       · exact ⟨fltBoundRT_of_bnd hba (by intro f hf; cases hf), fltBoundRT_of_bnd hbc (by intro f hf; cases hf)⟩
+      · exact ⟨fltBoundRT_of_bnd hba (by intro f hf; cases hf; exact twoDec_finite _ hcl.1),
+          fltBoundRT_of_bnd hbc (by intro f hf; cases hf)⟩
       · exact ⟨fltBoundRT_of_bnd hba (by intro f hf; cases hf; exact twoDec_finite _ hcl.1.1),
           fltBoundRT_of_bnd hbc (by intro f hf; cases hf; exact twoDec_finite _ hcl.1.2)⟩
       · exact ⟨fltBoundRT_of_bnd hba (by intro f hf; cases hf), fltBoundRT_of_bnd hbc (by intro f hf; cases hf)⟩
@@ -585,9 +589,11 @@ theorem fromLeaves_expr : ∀ (e : Expr) (a : Ast), toAst e = some a → FromLea
         · rename_i ba bc hba hbc
           cases ba <;> cases bc <;> simp only [rangeAst] at h <;> cases h
           · exact fromLeaves_cmp _ f _ _ _ (intAst_leaf _) (by simp [rendersOf]) hfl (hMx _ (bnd_leaf_int hbc))
+          · exact fromLeaves_cmp _ f _ _ _ (fixedAst_leaf _) (by simp [rendersOf]) hfl (hMx _ (bnd_leaf_flt hbc))
           · exact fromLeaves_cmp _ f _ _ _ (intAst_leaf _) (by simp [rendersOf]) hfl (hMn _ (bnd_leaf_int hba))
           · exact (fromLeaves_cmp _ f _ _ _ (intAst_leaf _) (by simp [rendersOf]) hfl (hMn _ (bnd_leaf_int hba))).and
               (fromLeaves_cmp _ f _ _ _ (intAst_leaf _) (by simp [rendersOf]) hfl (hMx _ (bnd_leaf_int hbc)))
+          · exact fromLeaves_cmp _ f _ _ _ (fixedAst_leaf _) (by simp [rendersOf]) hfl (hMn _ (bnd_leaf_flt hba))
           · exact (fromLeaves_cmp _ f _ _ _ (fixedAst_leaf _) (by simp [rendersOf]) hfl (hMn _ (bnd_leaf_flt hba))).and
               (fromLeaves_cmp _ f _ _ _ (fixedAst_leaf _) (by simp [rendersOf]) hfl (hMx _ (bnd_leaf_flt hbc)))
           · rename_i lo hi
@@ -731,10 +737,34 @@ example : cleanFilter exTree = true ∧ textClean exTree = true ∧ fltRT exTree
 example : cleanFilter exFloat = true ∧ textClean exFloat = true ∧ fltRT exFloat = true ∧ stackOK exFloat = true ∧
     depthOK exFloat = true := by decide +kernel
 
+/-- `x:[* TO 1.5]` and `x:{2.25 TO *}`: OPEN float ranges (covered since fix F12) -/
+example : cleanFilter exFloatUpTo = true ∧ textClean exFloatUpTo = true ∧ fltRT exFloatUpTo = true ∧
+    stackOK exFloatUpTo = true ∧ depthOK exFloatUpTo = true := by decide +kernel
+example : cleanFilter exFloatFrom = true ∧ textClean exFloatFrom = true ∧ fltRT exFloatFrom = true ∧
+    stackOK exFloatFrom = true ∧ depthOK exFloatFrom = true := by decide +kernel
+
 /-- the theorem applied: the text of the example tree, and what PostgreSQL reads -/
 example : ∃ t, render pgFns exTree = .ok t ∧ parseSql t = toAst exTree := by
   obtain ⟨t, ht⟩ := toAst_renders exTree (by decide +kernel) (by decide +kernel)
   exact ⟨t, ht, render_parses exTree t (by decide +kernel) (by decide +kernel) (by decide +kernel) ht⟩
+
+/-- the theorems applied to the open float range `x:[* TO 1.5]`: the text is `"x" <= 1.50`, PostgreSQL reads it as
+    the intended predicate, and that predicate means the query -/
+example : ∃ t a, render pgFns exFloatUpTo = .ok t ∧ parseSql t = some a ∧ toAst exFloatUpTo = some a ∧
+    ∀ row, evalSql row a = evalL row exFloatUpTo := by
+  obtain ⟨t, ht⟩ := toAst_renders exFloatUpTo (by decide +kernel) (by decide +kernel)
+  obtain ⟨a, ha⟩ := toAst_total exFloatUpTo (by decide +kernel)
+  have hp := render_parses exFloatUpTo t (by decide +kernel) (by decide +kernel) (by decide +kernel) ht
+  exact ⟨t, a, ht, hp.trans ha, ha, sql_means_query exFloatUpTo a (by decide +kernel) ha⟩
+
+/-- `x:[* TO 2.0]`: a float bound whose `%v` text is an integer numeral.  `rang` reads it with `strconv.Atoi` and
+    prints `%d` (`"x" <= 2`), while `toAst` mirrors the `%.2f` layout (`2.00`): the clause `!(atoi (fmtG hi)).isSome` of
+    `cleanBounds` for an open float range (as the corresponding clause for two-sided ones) is needed by the TEXT
+    theorem (the two predicates mean the same; the wide fragment `SqlWide.toAstW` follows `rang` exactly) -/
+def cexIntLike : Expr := .mk (exField [120]) .range (.bound exStar (exLit (.flt ⟨0x4000000000000000⟩)) true) F64.one 1
+theorem need_not_intlike_open : cleanFilter cexIntLike = false ∧ textClean cexIntLike = true ∧
+    render pgFns cexIntLike = .ok (b "\"x\" <= 2") ∧ (parseSql (b "\"x\" <= 2") == toAst cexIntLike) = false ∧
+    (toAst cexIntLike).isSome = true := by decide +kernel
 
 /-! ## the depth hypothesis cannot be dropped -/
 
@@ -788,6 +818,7 @@ end GoLucene.SqlText
 #print axioms GoLucene.SqlText.render_parses_iff
 #print axioms GoLucene.SqlText.fltRT_of_clean
 #print axioms GoLucene.SqlText.need_depth
+#print axioms GoLucene.SqlText.need_not_intlike_open
 #print axioms GoLucene.SqlText.rendered_sql_means_query
 #print axioms GoLucene.SqlText.parsed_cols_consts
 #print axioms GoLucene.SqlText.render_parses_of_fltRT
